@@ -2,6 +2,7 @@
 import gc
 import hashlib
 import random
+import threading
 
 from vmon import abort, env, ir as irmod, plainrun, quiesce
 
@@ -18,7 +19,10 @@ RULE = (
     "consumers + plain-dependency-only successors. non-trivial = at least one result with a finished consumer was checked "
     "before the run ended; distinct by (plan, W, scheduler, mode)"
 )
-ASSUMPTIONS = ["the harness keeps only ids and weak references to results", "successful runs only (a traceback legitimately pins frames)"]
+ASSUMPTIONS = ["the harness keeps only ids and weak references to results",
+               "failing runs: only the FIRST error (which run re-raises at the end) may pin its call's arguments through its traceback",
+               "further modes: 'obs' (at the observer's completed notification, any worker count), 'fail2' (several failing Python consumers, "
+               "max_errors=None), 'retry' (flaky consumers that succeed on a later attempt), 'failb' (failing C-function consumer), 'registry'"]
 
 
 def gen_cases(tier, seed):
@@ -27,13 +31,21 @@ def gen_cases(tier, seed):
     for i in range(n):
         s = env.seed_for(seed, ID, tier, i)
         r = random.Random(s)
-        mode = r.choice(["w1", "anc", "wave", "registry", "failb"])
-        W = 1 if mode in ("w1", "registry", "failb") else r.choice([2, 4, 8])
-        out.append({"seed": s, "mode": mode, "n": r.randint(2, 22 if tier == "quick" else 50), "W": W, "sched": r.choice(["default", "random"]),
+        mode = r.choice(["w1", "anc", "wave", "registry", "failb", "obs", "fail2", "retry"])
+        W = 1 if mode in ("w1", "registry", "failb", "fail2", "retry") else r.choice([2, 4, 8])
+        extra = {}
+        if mode == "obs":
+            W = r.choice([1, 2, 4])
+        elif mode == "fail2":
+            extra = {"faults": {"p": r.choice([0.25, 0.4]), "kinds": ["exc", "value"]}, "max_errors": None, "force_out": "sinks"}
+        elif mode == "retry":
+            n_att = r.choice([2, 3, 4])
+            extra = {"retry": n_att, "faults": {"p": r.choice([0.3, 0.6]), "kinds": ["exc", "value"], "flaky": True, "max_flaky": n_att - 1}}
+        out.append({**extra, "seed": s, "mode": mode, "n": r.randint(2, 22 if tier == "quick" else 50), "W": W, "sched": r.choice(["default", "random"]),
                     "family": r.choice(["chain", "join", "diamond", "zipper", "crisscross", "tree", "layers", "random", "random"]),
                     "delays": "none" if mode == "wave" else "mixed",
                     "cfg": {"p_unpack": 0.0, "p_opq": 0.0, "p_lit": 0.1, "p_cont": 0.3, "p_hub": 0.2,
-                            "out": r.choice(["sinks", "node", "node", "struct", "none"])}})
+                            "out": extra.pop("force_out", None) or r.choice(["sinks", "node", "node", "struct", "none"])}})
     return out
 
 
@@ -202,12 +214,47 @@ def run_case(desc):
                 if any(t[2] == "failed" and t[4][-1:] == ("len",) for t in obs.trace):
                     done.add(failb)  # the failing consumer has been processed (its failure was reported before this call started)
             check(done, f"start of n{nid} (single worker, after the failure of the builtin consumer n{failb})" if failb in done else f"start of n{nid}")
-    elif mode == "w1":
+    elif mode == "fail2":
+        # several Python consumers raise (their frames hold their arguments), the run goes on (max_errors=None), nobody stores the
+        # exceptions (progress=None): uberjob keeps the FIRST error until the end - its traceback legitimately pins that call's
+        # arguments - but every later failed call has finished and must not stay reachable.
         def pre(nid, att):
             H = holder["R"].H
             with H.lock:
                 done = set(H.ended_ok)
-            check(done, f"start of n{nid} (single worker)")
+                raised = [e[2] for e in H.events if e[1] == "raise"]
+            later_failures = set(raised[1:]) - set(raised[:1])
+            check(done | later_failures, f"start of n{nid} (single worker; failed earlier: first n{raised[0] if raised else None}, later {sorted(later_failures)[:5]})")
+    elif mode == "obs":
+        # the observer's 'completed' notification for call c is issued by the worker that ran c: by then c has finished, so results
+        # whose consumers have all been reported completed must be unreachable at that very moment (any worker count)
+        from vmon import recobserver
+
+        notified = set()
+        chk_lock = threading.Lock()
+
+        class LiveObs(recobserver.RecObserver):
+            def increment_completed(self_, *, section, scope):
+                recobserver.RecObserver.increment_completed(self_, section=section, scope=scope)
+                if section != "run" or not str(scope[-1]).startswith("vmonfn."):
+                    return
+                H = holder["R"].H
+                tid = threading.get_ident()
+                with H.lock:
+                    nid = next((e[2] for e in reversed(H.events) if e[3] == tid and e[1] == "end"), None)
+                with chk_lock:
+                    if nid is not None:
+                        notified.add(nid)
+                    check(set(notified), f"'completed' notification of n{nid} (W={desc['W']})")
+
+        obs = LiveObs()
+        pre = None
+    elif mode in ("w1", "retry"):
+        def pre(nid, att):
+            H = holder["R"].H
+            with H.lock:
+                done = set(H.ended_ok)
+            check(done, f"start of n{nid} (single worker{', attempt %d' % att if att > 1 else ''})")
     elif mode == "anc":
         def pre(nid, att):
             check(anc.get(nid, set()), f"start of n{nid}")
@@ -229,9 +276,21 @@ def run_case(desc):
         def pre(nid, att):
             drv.gate(nid)
         drv.start()
+    if mode == "fail2":
+        # the failing calls are leaves (nothing depends on them), so that every other call still runs and finishes
+        succs = ir.succs()
+        leaves = [c for c in calls if not succs[c] and ir.nodes[c].args]
+        desc = dict(desc, faults=dict(desc["faults"], among=leaves, p=0.7))
+
+    def before_run(R_):
+        holder["R"] = R_
+        R_.H.keep_exceptions = False
+
     try:
         d2 = dict(desc, max_errors=None) if mode == "failb" else desc
-        R = plainrun.execute(d2, pre=pre, record_args=False, track_results=True, ir=ir, before_run=lambda R_: holder.__setitem__("R", R_), hang_watch=drv is None,
+        if mode == "obs":
+            d2 = dict(desc, delays="none")
+        R = plainrun.execute(d2, pre=pre, record_args=False, track_results=True, ir=ir, before_run=before_run, hang_watch=drv is None,
                              progress=obs.progress() if obs else None)
     finally:
         if drv is not None:
@@ -241,6 +300,9 @@ def run_case(desc):
     if mode == "failb":
         if R.exc is None:
             return {"status": "inconclusive", "detail": "len() consumer did not fail"}
+    elif mode == "fail2":
+        if R.exc is None:
+            return {"status": "ok", "counters": {"fail2_cases_without_failure": 1}, "nontrivial": False}
     else:
         if R.exc is not None:
             return {"status": "inconclusive", "detail": f"run raised {R.exc!r} cause {R.exc.__cause__!r}"}
@@ -269,7 +331,7 @@ def finalize(agg, tier):
     reasons = []
     if c["results_checked_before_end"] < 500:
         reasons.append("fewer than 500 results with finished consumers were checked before the end of their run")
-    for m in ("mode_w1", "mode_anc", "mode_wave", "mode_registry", "mode_failb"):
+    for m in ("mode_w1", "mode_anc", "mode_wave", "mode_registry", "mode_failb", "mode_obs", "mode_fail2", "mode_retry"):
         if c[m] < 20:
             reasons.append(f"too few {m} cases")
     return reasons
